@@ -378,41 +378,52 @@ func main() {
 		// all histories of length 4 as individual cases (every shorter one is a prefix)
 		words(a, 4, func(w []int64) { emitHist(c, k, w, "exhaustive4") })
 
-		// all histories of length 6 (quick) / 8 (thorough): one case per prefix, continuations packed
+		// the same after the breaker has been opened by `thr` failures (with thresholds of 5 the
+		// plain enumeration spends most of its length getting there)
+		words(a, 4, func(w []int64) { emitHist(c, k, cat(fs(thr), w), "opened4") })
+
+		// all histories of length 6 (quick) / 8 (thorough), from a fresh breaker and from a freshly
+		// opened one: one case per prefix, continuations packed
 		plen, depth := 2, 4
 		if thorough {
 			plen, depth = 4, 4
 		}
-		var prefixes [][]int64
-		words(a, plen, func(w []int64) { prefixes = append(prefixes, append([]int64{}, w...)) })
-		results := make([]treeResult, len(prefixes))
-		var wg sync.WaitGroup
-		workers := runtime.GOMAXPROCS(0)
-		if workers > 8 {
-			workers = 8
-		}
-		next := int64(-1)
-		for w := 0; w < workers; w++ {
-			wg.Add(1)
-			go func() {
-				defer wg.Done()
-				for {
-					i := int(atomic.AddInt64(&next, 1))
-					if i >= len(prefixes) {
-						return
+		for _, base := range [][]int64{{}, fs(thr)} {
+			var prefixes [][]int64
+			words(a, plen, func(w []int64) { prefixes = append(prefixes, cat(base, w)) })
+			results := make([]treeResult, len(prefixes))
+			var wg sync.WaitGroup
+			workers := runtime.GOMAXPROCS(0)
+			if workers > 8 {
+				workers = 8
+			}
+			next := int64(-1)
+			for w := 0; w < workers; w++ {
+				wg.Add(1)
+				go func() {
+					defer wg.Done()
+					for {
+						i := int(atomic.AddInt64(&next, 1))
+						if i >= len(prefixes) {
+							return
+						}
+						results[i] = treeCase(k, a, prefixes[i], depth)
 					}
-					results[i] = treeCase(k, a, prefixes[i], depth)
+				}()
+			}
+			wg.Wait()
+			for _, tr := range results {
+				c.Emit(map[string]any{"kind": "tree", "b": k.name, "prefix": tr.prefix, "alphabet": a, "depth": depth, "pobs": tr.pobs, "sobs": tr.sobs})
+				if len(base) == 0 {
+					c.Count(k.name + ".tree.fresh")
+				} else {
+					c.Count(k.name + ".tree.opened")
 				}
-			}()
-		}
-		wg.Wait()
-		for _, tr := range results {
-			c.Emit(map[string]any{"kind": "tree", "b": k.name, "prefix": tr.prefix, "alphabet": a, "depth": depth, "pobs": tr.pobs, "sobs": tr.sobs})
-			c.Count(k.name + ".tree")
+			}
 		}
 
 		// random histories up to length 200
-		nr := 700
+		nr := 2000
 		if thorough {
 			nr = 20000
 		}
@@ -435,6 +446,6 @@ func main() {
 	}
 	c.Close(map[string]any{"exhaustive": true, "reruns_for_timing": atomic.LoadInt64(&reruns),
 		"exhaustive_note": "per breaker: every history over {fail, succ, ask, tick 0.6*timeout, tick timeout+1.5s, tick 1.3s} up to length " +
-			map[bool]string{false: "6", true: "8"}[L == 8] + " (6^" + map[bool]string{false: "6", true: "8"}[L == 8] + " histories, each run on a fresh real breaker; tree cases pack all continuations of one prefix); random histories to length 200; race test 32 goroutines"})
+			map[bool]string{false: "6", true: "8"}[L == 8] + " (6^" + map[bool]string{false: "6", true: "8"}[L == 8] + " histories from a fresh breaker and as many after `threshold` failures have opened it, each run on a fresh real breaker; tree cases pack all continuations of one prefix); random histories to length 200; race test 32 goroutines"})
 	_ = os.Stdout
 }
